@@ -3,12 +3,14 @@
    are therefore stated for EVERY session value (reachable or not): the preamble wipes all per-transport state,
    the CONNECT is encoded into the free tail of the arena and goes through exactly when it fits, a plain
    successful CONNACK is accepted in every state.  The one way history can defeat connect() — retained packets
-   filling the arena — is a reachable state: C12_refuted_full_arena (known finding K12).  That connect() then
-   runs to completion on a healthy transport is checked on the implementation by the fault sweep with a
-   conformant broker (lib/monitors.py mon_c12). *)
+   filling the arena — is a reachable state: C12_refuted_full_arena (known finding K12).  In every other state
+   connect() runs to completion on a behaving transport answered by a conformant broker:
+   C12_connect_succeeds / C12_connect_action_succeeds (the whole of op_connect: one write, flush, the reader
+   pulling the CONNACK in three reads, decode, accept), with "resumed" reported exactly when the client held
+   session state.  The same is checked on the implementation by the fault sweep (lib/monitors.py mon_c12). *)
 From Coq Require Import List NArith.
 From Minimq Require Import Bytes Varint Utf8 Props Ser De Reader Arena Core Show Machine Parse Run.
-From Minimq Require Import Reconnect.
+From Minimq Require Import Reconnect ConnectOk.
 Import ListNotations.
 Open Scope N_scope.
 
@@ -52,7 +54,35 @@ Theorem C12_refuted_full_arena :
     ob_ret (s_ob (w_sess (fst (op_connect FUEL w)))) = ob_ret (s_ob (connect_scratch (w_sess w))).
 Proof. exact reconnect_refuted_full_arena. Qed.
 
+(* the positive half: for EVERY world state (no reachability hypothesis at all) *)
+Theorem C12_connect_succeeds : forall w off bs,
+  w_script w = [] -> w_broker w = 2 -> w_inq w = [] -> w_txbuf w = [] -> w_last_arrival w <= w_now w ->
+  5 <= rcap (s_reader (w_sess w)) ->
+  let s2 := connect_scratch (w_sess w) in
+  enc_connect (ob_cap (s_ob s2) - ob_used (s_ob s2)) (connect_request s2) = SOk off bs -> lenN bs <= BIG ->
+  exists w', op_connect FUEL w = (w', ODone (if s_sp (w_sess w) then 1 else 0)).
+Proof. exact connect_succeeds. Qed.
+
+Theorem C12_connect_action_succeeds : forall w,
+  w_script w = [] -> w_broker w = 2 -> 5 <= rcap (s_reader (w_sess w)) ->
+  let s2 := connect_scratch (w_sess w) in
+  let free := ob_cap (s_ob s2) - ob_used (s_ob s2) in
+  let cs := connect_chunks (connect_request s2) in
+  chunks_ok cs = true -> chunks_len cs <= VARINT_MAX -> 5 + chunks_len cs <= free ->
+  let w' := run_action (AConnect []) w in
+  w_conn w' = true /\ w_live w' = true /\ w_event w' = (if s_sp (w_sess w) then 1 else 0).
+Proof. exact connect_action_succeeds. Qed.
+
+(* non-vacuity: a reachable state with a half-sent retained QoS 1 publish and a dead connection meets them *)
+Theorem C12_connect_hyps_met :
+  connect_hyps ex_broken = true /\ halted ex_broken = false /\ s_sp (w_sess ex_broken) = true /\
+  length (ob_ret (s_ob (w_sess ex_broken))) = 1%nat /\ w_live ex_broken = false.
+Proof. exact connect_hyps_broken. Qed.
+
 Print Assumptions C12_preamble_clean.
+Print Assumptions C12_connect_succeeds.
+Print Assumptions C12_connect_action_succeeds.
+Print Assumptions C12_connect_hyps_met.
 Print Assumptions C12_connect_encode_failure_is_local.
 Print Assumptions C12_connect_encodes_iff_room.
 Print Assumptions C12_plain_connack_accepted.
